@@ -1,8 +1,8 @@
 (* C11 -- Shutdown signals reach every running test, escalate to SIGKILL; nextest exits.
    Statements only (unit side; the dispatcher's broadcast to every registered unit is part of the
    dispatcher model and the end-to-end checks). *)
-From NextestModel Require Import Base.Str Model.Clocks Model.UnitTimers Model.AbsTimers
-  Proofs.Timers Proofs.UnitProps Proofs.UnitLive.
+From NextestModel Require Import Base.Str Model.Clocks Model.UnitTimers Model.AbsTimers Model.UnitMonitor
+  Proofs.Timers Proofs.UnitProps Proofs.UnitLive Proofs.UnitHistory Proofs.PauseCert gen.GenPauseTable.
 Open Scope N_scope.
 
 (* A shutdown request reaching a running unit whose child has not been reaped sends exactly one
@@ -59,6 +59,35 @@ Theorem C11_unit_can_always_finish :
     exists r', urun tbl cfg (fst r) (finishing (fst r)) = Ok r' /\ ph (fst r') = PDone /\ snd r' = [].
 Proof. exact reachable_can_finish. Qed.
 Print Assumptions C11_unit_can_always_finish.
+
+(* Over whole histories (environment and monitor of Model/UnitMonitor.v, see Properties/C09.v): after
+   a forwarded shutdown signal the group is killed by the *end of the grace period* only when at
+   least the grace period of unpaused time has passed since the signal was forwarded -- also when
+   the signal was sent while nextest was stopped and handled at the resumption, before or after the
+   Continue; and never once the child's exit has been observed. *)
+Theorem C11_grace_kill_not_before_grace :
+  forall cfg es m, cfg_valid cfg -> mrun true pause_table cfg (minit cfg) es = MOk m ->
+  forall l, In l (m_log m) -> le_ev l = FireGrace -> le_ph l = PTerminating TSignal ->
+  le_out l = OSignal SigKill -> grace cfg <= le_gun l /\ le_exited l = false.
+Proof.
+  intros cfg es m Hv Hr l Hin He _ Ho. split.
+  - exact (kill_not_before_grace pause_table pause_reach pause_cert cfg Hv es m Hr l Hin He Ho).
+  - exact (no_signal_after_exit true pause_table cfg es m Hr l SigKill Hin Ho).
+Qed.
+Print Assumptions C11_grace_kill_not_before_grace.
+
+(* a shutdown signal sent while nextest is stopped, handled before the Continue: the grace period
+   starts at the resumption *)
+Example C11_shutdown_while_stopped_nonvacuous :
+  let cfg := {| period := 50; terminate_after := None; grace := 7; leak_timeout := 1 |} in
+  let es := [Tick 3; Req RStop; Tick 30; Req (RShutdown (Once STerm)); Req RContinue; Tick 7; FireGrace;
+             ChildExit false; FdsDone] in
+  senv_trace senv0 es = true /\
+  exists m, mrun true pause_table cfg (minit cfg) es = MOk m /\
+    map (fun l => (le_out l, le_gun l)) (rev (m_log m)) =
+      [(OSignal SigTstp, 3); (OAck, 3); (OSignal SigTerm, 3); (OSignal SigCont, 0); (OSignal SigKill, 7)] /\
+    time_taken (m_u m) = 10.
+Proof. split; [reflexivity|]. eexists. split; [vm_compute; reflexivity|]. repeat split. Qed.
 
 Example C11_nonvacuous :
   let cfg := {| period := 50; terminate_after := None; grace := 7; leak_timeout := 1 |} in
